@@ -210,7 +210,12 @@ func genC28(seed uint64) *Plan {
 		switch weighted(r, map[string]int{"up": 4, "route": 12, "down": 2, "term": 1, "close": 1, "stats": 1}, []string{"up", "route", "down", "term", "close", "stats"}) {
 		case "up":
 			if !up[pi] {
-				pl.Steps = append(pl.Steps, Step{Kind: "bmp_peer_up", Peer: pi})
+				st := Step{Kind: "bmp_peer_up", Peer: pi}
+				if ignoreAS != 0 && r.Chance(0.35) {
+					// the session comes up with the ignored AS, or with its own one again
+					st.N = int(pick(r, []int64{ignoreAS, int64(65001 + pi)}))
+				}
+				pl.Steps = append(pl.Steps, st)
 				up[pi] = true
 			}
 		case "route":
@@ -301,6 +306,7 @@ type c28Oracle struct {
 	bw      bmpWorld
 	up      []bool
 	model   []map[viewKey]uint32 // per peer: (prefix, path id) -> tag
+	peers   []BMPPeer               // the monitored sessions as they currently are (AS may change at peer-up)
 	obs     map[string]*bmpObserver // per vrf name / family
 	seenVRF map[string]*vrf.VRF
 }
@@ -334,7 +340,15 @@ func (o *c28Oracle) reset() {
 }
 
 func (o *c28Oracle) apply(w *World, i int, s *Step, kind string) {
-	peers := w.Plan.BMPPeers
+	if o.peers == nil {
+		o.peers = append([]BMPPeer(nil), w.Plan.BMPPeers...)
+	}
+	peers := o.peers
+	if kind == "bmp_peer_up" && s.N != 0 {
+		// the monitored session comes up with another AS than last time (the neighbour was replaced);
+		// whether it is an ignored AS is decided by what the session has now
+		peers[s.Peer].AS = uint32(s.N)
+	}
 	ignore := w.Plan.Params["ignore"]
 	post := s.On || (ignore == 0 && w.Plan.Params["post"] == 1)
 	// does the receiver's configuration say that this message is mirrored?
